@@ -16,6 +16,32 @@ CHECKS = {
    note="Golden values only for what README.md states; the hook exposes the aln_param actually used.", ref="3/C09"),
 }
 
+def _enum(text, note, ref, tech="bounded-exhaustive enumeration of the stated finite space on the real library, independent oracle"):
+    return dict(cat="model_checking", tech=tech, text=text, note=note, ref=ref)
+
+CHECKS.update({
+ "C03": _enum("For every named set of 3..5 sequences over a small alphabet up to a length bound (two namings) and every admissible type, ALL k! record orders are run and the map name -> gapped row must equal that of the input order; for the k-means path (>=100 sequences) two sets x two namings are run under the complete family {transpositions, rotations, reversal} (every 10th transposition in the quick tier).",
+              "Distinct names by construction; n_threads=1 on the OpenMP-free build.", "3/C03"),
+ "C04": _enum("Every base set (all pairs/triples over {A,C} up to a length bound plus four larger sets) is presented in every way a finite grammar produces (wrapping, blank lines, padding, gap runs with 3 symbols, mostly-gap alignments, independently written Clustal/MSF, splits over 2-3 files of mixed formats, standard input through the CLI's own main) and the output bytes must equal those for the bare one-file FASTA.",
+              "Presentation writers are harness code; stdin legs run the CLI main() in a forked child.", "3/C04"),
+ "C06": _enum("Every member of the alignment family (run-produced alignments at widths around multiples of 60 with names of 1..200 characters over the allowed set and mixed-case residues; every small alignment read from a file) is written in format f1, read, compared, converted to f2 through the public API, read and compared again, for all 9 ordered format pairs.",
+              "The read side is observed on the msa object (names, seq, gaps[]).", "3/C06"),
+ "C08": _enum("Every string over {A,C,N,R,U} / {L,K,X,B,Z} up to a length bound x 2..5 copies x every type constant, plus structured strings at lengths 1..5000 x 2..500 copies within a stated size budget, on the OpenMP-free build (1 thread) and on the real libgomp build (2,3,16 threads); no gap may appear.",
+              "Types that do not fit the detected kind are expected to be rejected; 5000x500 is beyond the size budget and reported as skipped.", "3/C08"),
+ "C11": _enum("All binary (text, pattern) pairs up to length 11 (13 thorough) and all ternary pairs up to 6 (8) against a plain DP, for bpm_block, bpm, bpm_256 and for bpm_block re-instantiated from the same source with 8-bit words (2-block regime exhaustively); complete one-edit families around 13-symbol texts at every block boundary up to 3 blocks and at the 1024 cap; AVX2 and non-AVX2 builds.",
+              "Arbitrary multi-block patterns at 64-bit width are covered only through the word-width-parametric source.", "3/C11"),
+ "C12": _enum("Every tuple of 3..5 sequences over {A,C}/{L,M,K} up to a length bound that contains a repeated member, every admissible type; the containment premise is decided by independent code on the published 13-class reduction; copies must have identical rows; plus 48 sets of 20..99 sequences built from 3..5 distinct sequences.",
+              "Members outside the premise are counted and not judged.", "3/C12"),
+ "C13": _enum("Every count vector over the letter classes (shared ACGTN, U, protein-only, other) with total <= 14 (30 thorough) that satisfies one of the two premises x non-residue character factors {0,1,5,10x} x 12 arrangements x entry point; the detected kind must equal the premise's.",
+              "The decision is linear in the histogram, so bounded totals cover every proportion with that denominator.", "3/C13"),
+ "C14": _enum("For every base set over {A,C,T}/{L,K,B,U,Z,X} up to a length bound and every type constant, ALL 2^residues case patterns and (nucleotides) ALL 2^(#T) T/U patterns are run; the gap pattern must equal the base run's and the letters those of the respelt input.",
+              "Base sets whose type is rejected are skipped and counted.", "3/C14"),
+ "C15": _enum("Every member of the alignment family plus two alignments with more than 1024 output lines is written in all three formats, to a file and to stdout, and parsed by independent readers: 60-column wrapping/blocks, every sequence in every block in order, headers, MSF length, per-row and total GCG checksums, molecule type.",
+              "Date ignored; checksums recomputed over the rows as written.", "3/C15"),
+ "C17": _enum("For every listed set of 2..4 uniquely named short sequences ALL alignments are generated; every ordered pair (reference, test) is compared by kalign_msa_compare under row permutations, all-gap columns and three file renderings (and a run-produced reference) and judged by an independent implementation of the score definition.",
+              "Files always contain a gap character (premise); tolerance 1e-4 relative.", "3/C17"),
+})
+
 NA_REASON = "check not built yet (work in progress; see DESIGN.md section 3)"
 
 def main():
